@@ -143,7 +143,13 @@ func (p *Player) TEIGetMove(ctx context.Context, pos *tak.Position, tc *TimeCont
 	}
 	goCmd := []string{"go"}
 	if deadline, ok := ctx.Deadline(); ok {
-		goCmd = append(goCmd, "movetime", formatTime(deadline.Sub(time.Now())))
+		left := deadline.Sub(time.Now())
+		if left < time.Millisecond {
+			// would be sent as "movetime 0", which an engine
+			// reads as "no limit"
+			return tak.Move{}, errors.New("Timeout too short")
+		}
+		goCmd = append(goCmd, "movetime", formatTime(left))
 	}
 	if tc != nil {
 		times := []struct {
